@@ -441,6 +441,12 @@ class Driver:
         return None if not o.pts else o.pts[-1].copy()
 
 
+def _u_above(t):
+    """a uniform value whose logarithm is safely above log alpha: exp(t) in the normal range; in the
+    sub-normal range log(exp(t)) is no longer accurate, so a value far above the threshold is used."""
+    return math.exp(t) if t > -700 else TINY_U
+
+
 def _close(a, b, rtol, atol=0.0):
     a, b = np.asarray(a, float), np.asarray(b, float)
     if a.shape != b.shape:
@@ -765,7 +771,7 @@ class Thr:
                 self.judge(self.trans(x, z, [math.exp(la - dl)], route), x, True, la, what + " [u below alpha]")
             if la + dl < -1e-15:
                 ctx.count("threshold_reject_side"); did_rej = True
-                u = max(math.exp(la + dl), 5e-324)
+                u = _u_above(la + dl)
                 self.judge(self.trans(x, z, [u], route), x, False, la, what + " [u above alpha]")
             if did_acc and did_rej:
                 ctx.nontrivial()
@@ -803,7 +809,7 @@ class Thr:
                     self.judge(self.trans(y, zr, [math.exp(lar - dlr)]), y, True, lar, what + " [reverse, u below alpha]")
                 if lar + dlr < -1e-15:
                     ctx.count("threshold_reject_side")
-                    self.judge(self.trans(y, zr, [max(math.exp(lar + dlr), 5e-324)]), y, False, lar, what + " [reverse, u above alpha]")
+                    self.judge(self.trans(y, zr, [_u_above(lar + dlr)]), y, False, lar, what + " [reverse, u above alpha]")
 
     def pick_noises(self, x, ax, Bx):
         """noise vectors: one random, one chosen (among candidates) to give a clearly sub-unit target ratio."""
@@ -896,7 +902,7 @@ class Thr:
                     if want_acc and raw - dl > -700:
                         us.append(math.exp(raw - dl)); exp_acc.append(1); kinds.append("acc")
                     else:
-                        us.append(max(math.exp(raw + dl), 5e-324)); exp_acc.append(0); kinds.append("rej")
+                        us.append(_u_above(raw + dl)); exp_acc.append(0); kinds.append("rej")
                 else:
                     us.append(TINY_U); exp_acc.append(1); kinds.append("skip")
                 if exp_acc[-1]:
